@@ -10,6 +10,9 @@ import (
 
 // backSlice walks the data dependencies of v (through loads of locals, conversions, extracts,
 // calls, field/index selections) and calls visit on every value; visit returns false to stop descending.
+// backSliceCtx gives backSlice access to the call graph (set once the program is loaded).
+var backSliceCtx *Ctx
+
 func backSlice(v ssa.Value, visit func(ssa.Value) bool) {
 	seen := map[ssa.Value]bool{}
 	var walk func(v ssa.Value, d int)
@@ -87,7 +90,31 @@ func backSlice(v ssa.Value, visit func(ssa.Value) bool) {
 		case *ssa.MakeInterface:
 			walk(x.X, d+1)
 		case *ssa.Extract:
+			// result of a helper split off from a reference function: continue at what the helper returns
+			if call, ok := x.Tuple.(*ssa.Call); ok {
+				if sc := call.Call.StaticCallee(); sc != nil && isNewHelper(sc) {
+					allInstrs(sc, func(ins ssa.Instruction) {
+						if ret, ok := ins.(*ssa.Return); ok && x.Index < len(ret.Results) {
+							walk(resolveSpill(ret.Results[x.Index]), d+1)
+						}
+					})
+				}
+			}
 			walk(x.Tuple, d+1)
+		case *ssa.Parameter:
+			// parameter of such a helper: continue at the arguments of its call sites
+			if f := x.Parent(); isNewHelper(f) && f.Parent() == nil && backSliceCtx != nil {
+				for i, p := range f.Params {
+					if p != x {
+						continue
+					}
+					for _, e := range backSliceCtx.callSitesOf(f) {
+						if ci, ok := e.Site.(ssa.CallInstruction); ok && i < len(ci.Common().Args) {
+							walk(ci.Common().Args[i], d+1)
+						}
+					}
+				}
+			}
 		case *ssa.Field:
 			walk(x.X, d+1)
 		case *ssa.FieldAddr:
@@ -118,7 +145,27 @@ func backSlice(v ssa.Value, visit func(ssa.Value) bool) {
 		case *ssa.BinOp:
 			walk(x.X, d+1)
 			walk(x.Y, d+1)
+		case *ssa.FreeVar:
+			// captured variable: continue at what the enclosing function stored in it
+			fn := x.Parent()
+			for i, w := range fn.FreeVars {
+				if w != x || fn.Parent() == nil {
+					continue
+				}
+				allInstrs(fn.Parent(), func(ins ssa.Instruction) {
+					if mc, ok := ins.(*ssa.MakeClosure); ok && mc.Fn == fn && i < len(mc.Bindings) {
+						walk(mc.Bindings[i], d+1)
+					}
+				})
+			}
 		case *ssa.Call:
+			if sc := x.Call.StaticCallee(); sc != nil && (isNewHelper(sc) || (sc.Parent() != nil && sc.Parent() == x.Parent())) && sc.Signature.Results().Len() == 1 {
+				allInstrs(sc, func(ins ssa.Instruction) {
+					if ret, ok := ins.(*ssa.Return); ok && len(ret.Results) == 1 {
+						walk(resolveSpill(ret.Results[0]), d+1)
+					}
+				})
+			}
 			for _, a := range x.Call.Args {
 				walk(a, d+1)
 			}
